@@ -4,11 +4,11 @@
 R=$1; shift; : > $R
 for S in "$@"; do for d in $S/C*.out; do
   id=$(basename $d .out)
-  out=$(TIER=${TIER:-quick} /verif/tools/seedtest.sh $d $id 2>&1)
+  out=$(TIER=${TIER:-quick} ${VERIF:-/verif}/tools/seedtest.sh $d $id 2>&1)
   db=$(echo "$out" | grep -o 'demo on unchanged: exit=[0-9]*' | grep -o '[0-9]*$'); da=$(echo "$out" | grep -o 'demo on changed:   exit=[0-9]*' | grep -o '[0-9]*$')
   ck=$(echo "$out" | grep "^check $id:" | sed 's/ ::.*//')
   what=$(echo "$out" | grep "^check $id:" | sed 's/.*:: *//' | cut -c1-260)
   printf '%s\t%s\t%s\t%s\t%s\t%s\n' "$(basename $S)" "$id" "$db" "$da" "$ck" "$what" >> $R
 done; done
 # leave coq/Gen describing /repo again
-cd /verif && ./check setup > /tmp/mw/setup_after_seedall.log 2>&1; echo "setup rc=$?" >> $R
+cd ${VERIF:-/verif} && ./check setup > /tmp/mw/setup_after_seedall.log 2>&1; echo "setup rc=$?" >> $R
